@@ -1,2 +1,248 @@
--- driver stub (replaced when the model for C19 is built)
-def main : IO Unit := pure ()
+/-
+  Driver for C19 (transfers between geometries): one request line in, one reply line out.
+  Tokens are separated by blanks; names are `x` + hex; rationals `num/den`.
+
+    geo   := conv atm dmplex ncols nlays {xname cx cy surface numLayers numNodes area}* {xname bottom centre}*
+    dict  := n {xkey xvalue}*
+    q     := first | tab n {index}*          (the nearest-column oracle: model's own, or a table
+                                              giving the chosen source index per target column)
+  requests
+    names geo
+    hyp geo geo
+    bm q geo geo
+    inc q geo geo n {xname nv {rat}* por}* dict dict
+    gen q geo geo ng {xname xblock xtype ltab gx rate}* dictQ(sgridVol) n{xname rat}(tgrid) n{0|1}(incols)
+        n{x}(top) n{x}(bottom) dict dict rename preserve
+    rock dict(sgridRock) dict(mapping) n{x}(tblocks)
+    pb dict(mapping) n{x}(tblocks) (xname | -)
+    incd dict(mapping) n{x}(tblocks) n{xname}
+-/
+import PyTough.Model.Mapping
+import PyTough.Py.Proto
+open Py Model.Mapping
+
+abbrev P := StateT (List String) Option
+
+def tok : P String := fun s => match s with
+  | [] => none
+  | t :: r => some (t, r)
+
+def pNat : P Nat := do
+  let t ← tok
+  match t.toNat? with
+  | some n => pure n
+  | none => failure
+
+def pInt : P Int := do
+  let t ← tok
+  match t.toInt? with
+  | some n => pure n
+  | none => failure
+
+def pRatOf (t : String) : Option Rat :=
+  match t.splitOn "/" with
+  | [a] => a.toInt?.map (fun n => (n : Rat))
+  | [a, b] => do
+    let n ← a.toInt?
+    let d ← b.toNat?
+    pure (mkRat n d)
+  | _ => none
+
+def pRat : P Rat := do
+  let t ← tok
+  match pRatOf t with
+  | some r => pure r
+  | none => failure
+
+def pStr : P Str := do
+  let t ← tok
+  match t.toList with
+  | 'x' :: h => pure (ofHexAux h)
+  | _ => failure
+
+def pOpt {α : Type} (p : String → Option α) : P (Option α) := do
+  let t ← tok
+  if t == "-" then pure none else
+  match p t with
+  | some a => pure (some a)
+  | none => failure
+
+def pMany {α : Type} (p : P α) : Nat → P (List α)
+  | 0 => pure []
+  | n + 1 => do
+    let a ← p
+    let r ← pMany p n
+    pure (a :: r)
+
+def pList {α : Type} (p : P α) : P (List α) := do
+  let n ← pNat
+  pMany p n
+
+def pConv : P Conv := do
+  let n ← pNat
+  match n with
+  | 0 => pure .c0
+  | 1 => pure .c1
+  | 2 => pure .c2
+  | 3 => pure .c3
+  | _ => failure
+
+def pCol : P Col := do
+  let name ← pStr
+  let cx ← pRat
+  let cy ← pRat
+  let s ← pRat
+  let nl ← pNat
+  let nn ← pNat
+  let a ← pRat
+  pure ⟨name, cx, cy, s, nl, nn, a⟩
+
+def pLay : P Lay := do
+  let name ← pStr
+  let b ← pRat
+  let c ← pRat
+  pure ⟨name, b, c⟩
+
+def pGeo : P Geo := do
+  let cv ← pConv
+  let atm ← pNat
+  let dm ← pNat
+  let nc ← pNat
+  let nl ← pNat
+  let cols ← pMany pCol nc
+  let lays ← pMany pLay nl
+  pure ⟨cv, atm, dm != 0, cols, lays⟩
+
+def pDict : P (Dict Str) := pList (do
+  let k ← pStr
+  let v ← pStr
+  pure (k, v))
+
+def pDictQ : P (Dict Rat) := pList (do
+  let k ← pStr
+  let v ← pRat
+  pure (k, v))
+
+/-- nearest-column parameter: the model's own, or a table keyed by the target centres -/
+def pQ (tgtCentres : Geo → List (Rat × Rat)) : P (Geo → List (Rat × Rat) → Rat × Rat → Nat) := do
+  let t ← tok
+  if t == "first" then pure (fun _ => nearestFirst)
+  else if t == "tab" then do
+    let idx ← pList pNat
+    pure (fun geo _ p =>
+      match ((tgtCentres geo).zip idx).find? (fun x => x.1 == p) with
+      | some x => x.2
+      | none => 0)
+  else failure
+
+def centresOf (g : Geo) : List (Rat × Rat) := g.cols.map Col.centre
+
+def shRat (r : Rat) : String := s!"{r.num}/{r.den}"
+def shStr (s : Str) : String := "x" ++ toHex s
+def shOptRat : Option Rat → String
+  | none => "-"
+  | some r => shRat r
+def shList {α : Type} (f : α → String) (l : List α) : String :=
+  l.foldl (fun acc a => acc ++ " " ++ f a) (toString l.length)
+def shDict (d : Dict Str) : String := shList (fun p => shStr p.1 ++ " " ++ shStr p.2) d
+def shIncVal (v : IncVal) : String :=
+  shList shRat v.vars ++ " " ++ shOptRat v.porosity ++ " " ++
+    (match v.tag with | none => "-" | some i => toString i)
+def shIncon (d : Incon) : String := shList (fun p => shStr p.1 ++ " " ++ shIncVal p.2) d
+def shGenOut (g : GenOut) : String :=
+  toString g.src ++ " " ++ shStr g.name ++ " " ++ shStr g.block ++ " " ++ shOptRat g.gx ++ " " ++
+    (match g.rate with | none => "-" | some r => "r " ++ shList shRat r)
+def shB (b : Bool) : String := if b then "1" else "0"
+
+def pIncon : P Incon := do
+  let l ← pList (do
+    let name ← pStr
+    let vars ← pList pRat
+    let por ← pOpt pRatOf
+    pure (name, vars, por))
+  pure ((enumFrom 0 l).map (fun x => (x.2.1, ⟨x.2.2.1, x.2.2.2, some x.1⟩)))
+
+def pGen : P Gen := do
+  let name ← pStr
+  let block ← pStr
+  let type ← pStr
+  let ltab ← pOpt String.toInt?
+  let gx ← pOpt pRatOf
+  let t ← tok
+  let rate ← (if t == "-" then pure none else do
+    let r ← pList pRat
+    pure (some r) : P (Option (List Rat)))
+  pure ⟨name, block, type, ltab, gx, rate⟩
+
+def pOptStr : P (Option Str) := do
+  let t ← tok
+  if t == "-" then pure none else
+  match t.toList with
+  | 'x' :: h => pure (some (ofHexAux h))
+  | _ => failure
+
+def request : P String := do
+  let op ← tok
+  match op with
+  | "names" => do
+    let g ← pGeo
+    pure (showExc (shList shStr) g.blockNameList)
+  | "hyp" => do
+    let s ← pGeo
+    let t ← pGeo
+    pure (s!"{shB (srcOK s)} {shB (tgtOK t)} {shB (atmOK s t)} {shB (distinctCentres s)} {shB (tgtOK s)}")
+  | "bm" => do
+    let q ← pQ centresOf
+    let s ← pGeo
+    let t ← pGeo
+    pure (showExc (fun (r : Dict Str × Dict Str) => shDict r.1 ++ " " ++ shDict r.2) (blockMapping (q t) s t))
+  | "inc" => do
+    let q ← pQ centresOf
+    let s ← pGeo
+    let t ← pGeo
+    let inc ← pIncon
+    let m ← pDict
+    let cm ← pDict
+    pure (showExc shIncon (transferFrom (q t) inc s t m cm))
+  | "gen" => do
+    let q ← pQ centresOf
+    let s ← pGeo
+    let t ← pGeo
+    let gens ← pList pGen
+    let sv ← pDictQ
+    let tg ← pDictQ
+    let inc ← pList pNat
+    let top ← pList pStr
+    let bot ← pList pStr
+    let m ← pDict
+    let cm ← pDict
+    let rn ← pNat
+    let pr ← pNat
+    pure (showExc (shList shGenOut)
+      (transferGenerators (q t) gens s t sv tg (inc.map (· != 0)) top bot m cm (rn != 0) (pr != 0)))
+  | "rock" => do
+    let sr ← pDict
+    let m ← pDict
+    let tb ← pList pStr
+    pure (showExc (shList shStr) (transferRocktypes sr m tb))
+  | "pb" => do
+    let m ← pDict
+    let tb ← pList pStr
+    let pb ← pOptStr
+    pure (showExc (fun (o : Option Str) => match o with | none => "-" | some s => shStr s)
+      (transferPrintBlock m tb pb))
+  | "incd" => do
+    let m ← pDict
+    let tb ← pList pStr
+    let src ← pList pStr
+    pure (showExc (shList (fun (p : Str × Nat) => shStr p.1 ++ " " ++ toString p.2))
+      (transferInconDict m tb ((enumFrom 0 src).map (fun x => (x.2, x.1)))))
+  | _ => failure
+
+def handle (ws : List String) : String :=
+  match request ws with
+  | some (r, []) => r
+  | some (_, _) => "bad-request trailing"
+  | none => "bad-request"
+
+def main : IO Unit := serve handle
